@@ -32,7 +32,7 @@ def main():
     try:
         for p in props:
             t = time.time()
-            r = sh('%s/bin/check %s --tier quick' % (VERIF, p), cwd=VERIF, timeout=3600)
+            r = sh('VERIF_EVIDENCE_DIR=%s/work/seed_evidence %s/bin/check %s --tier quick' % (VERIF, VERIF, p), cwd=VERIF, timeout=3600)
             lines = [l for l in r.stdout.split('\n') if l.startswith('VIOLATION') or l.startswith('KNOWN-FINDING')]
             detail = [l for l in r.stdout.split('\n') if l.startswith('[check]')]
             results[p] = {'exit': r.returncode, 'violation_lines': lines[:6], 'log': detail[-8:], 'secs': round(time.time() - t, 1)}
